@@ -75,28 +75,34 @@ M("c09-add-raw-compare", "C09", "C09/CASE-TAINT",
 M("c09-twin-rename-uname", "C09", "silent", (C, "uname", "upper_name", 7))
 
 # ---------------------------------------------------------------- C17
-M("c17-getitem-no-upper", "C17", "C17/OVERRIDES",
+M("c17-getitem-no-upper", "C17", "C17/MAP-MODEL",
   (K, "return super().__getitem__(key.upper())", "return super().__getitem__(key)"))
-M("c17-contains-no-upper", "C17", "C17/OVERRIDES",
+M("c17-contains-no-upper", "C17", "C17/MAP-MODEL",
   (K, "        key = to_unicode(key)\n        return super().__contains__(key.upper())\n\n    def get",
       "        key = to_unicode(key)\n        return super().__contains__(key)\n\n    def get"))
-M("c17-setdefault-no-unicode", "C17", "C17/OVERRIDES",
+# equivalent under CPython (OrderedDict.setdefault/update/copy go through the overridden dunders / __class__;
+# confirmed by running both versions): the former shape rule C17/OVERRIDES fired on it
+M("c17-setdefault-no-unicode", "C17", "silent",
   (K, "        key = to_unicode(key)\n        return super().setdefault(key.upper(), value)",
       "        return super().setdefault(key.upper(), value)"))
-M("c17-delete-get-override", "C17", "C17/OVERRIDES",
+M("c17-delete-get-override", "C17", "C17/MAP-MODEL",
   (K, "    def get(self, key, default=None):\n        key = to_unicode(key)\n        return super().get(key.upper(), default)\n\n", ""))
-M("c17-update-bypass", "C17", "C17/OVERRIDES",
+# equivalent under CPython (OrderedDict.setdefault/update/copy go through the overridden dunders / __class__;
+# confirmed by running both versions): the former shape rule C17/OVERRIDES fired on it
+M("c17-update-bypass", "C17", "silent",
   (K, "            for key, value in mapping:\n                self[key] = value",
       "            super().update(mapping)"))
-M("c17-copy-plain-dict", "C17", "C17/OVERRIDES",
+# equivalent under CPython (OrderedDict.setdefault/update/copy go through the overridden dunders / __class__;
+# confirmed by running both versions): the former shape rule C17/OVERRIDES fired on it
+M("c17-copy-plain-dict", "C17", "silent",
   (K, "return type(self)(super().copy())", "return super().copy()"))
-M("c17-parameters-get-bypass", "C17", "C17/OVERRIDES",
+M("c17-parameters-get-bypass", "C17", "C17/MAP-MODEL",
   (P, "    def params(self):", "    def get(self, key, default=None):\n        return dict.get(self, key, default)\n\n    def params(self):"))
-M("c17-eq-unfolded-other", "C17", "C17/EQ-BOTH",
+M("c17-eq-unfolded-other", "C17", "C17/MAP-MODEL",
   (K, "dict(CaselessDict(other).items())", "dict(other.items())"))
-M("c17-canon-tail-unsorted", "C17", "C17/CANON",
+M("c17-canon-tail-unsorted", "C17", "C17/MAP-MODEL",
   (K, "+ sorted(tail)", "+ tail"))
-M("c17-canon-head-reverse", "C17", "C17/CANON",
+M("c17-canon-head-reverse", "C17", "C17/MAP-MODEL",
   (K, "sorted(head, key=lambda k: canonical_map[k])", "sorted(head, key=lambda k: canonical_map[k], reverse=True)"))
 M("c17-canon-lowercase-order", "C17", "C17/CANON",
   (C, "canonical_order = ('TZID',)", "canonical_order = ('tzid',)"))
@@ -110,18 +116,18 @@ M("c19-freq-last", "C19", "C19/ORDER",
   (PR, '"BYSETPOS", "WKST", "SKIP")', '"BYSETPOS", "WKST", "SKIP", "FREQ")'))
 M("c19-bymonth-vint", "C19", "C19/TYPES", (PR, "'BYMONTH': vMonth,", "'BYMONTH': vInt,"))
 M("c19-until-vint", "C19", "C19/TYPES", (PR, "'UNTIL': vDDDTypes,", "'UNTIL': vText,"))
-M("c19-join-semicolon", "C19", "C19/DELIMS",
+M("c19-join-semicolon", "C19", "C19/RECUR-MODEL",
   (PR, "vals = b','.join(typ(val).to_ical() for val in vals)",
        "vals = b';'.join(typ(val).to_ical() for val in vals)"))
-M("c19-reader-default-differs", "C19", "C19/TYPES",
+M("c19-reader-default-differs", "C19", "C19/RECUR-MODEL",
   (PR, "parser = cls.types.get(key, vText)", "parser = cls.types.get(key, vInt)"))
-M("c19-insertion-order", "C19", "C19/ORDER",
+M("c19-insertion-order", "C19", "C19/RECUR-MODEL",
   (PR, "for key, vals in self.sorted_items():", "for key, vals in self.items():"))
 M("c19-weekday-no-sign", "C19", "C19/GRAMMAR",
   (PR, "(?P<signal>[+-]?)", "(?P<signal>[-]?)"))
 M("c19-weekday-one-digit", "C19", "C19/GRAMMAR",
   (PR, "(?P<relative>[\\d]{0,2})", "(?P<relative>[\\d]{0,1})"))
-M("c19-month-int-format", "C19", "C19/GRAMMAR",
+M("c19-month-int-format", "C19", "C19/RECUR-MODEL",
   (PR, '        """The ical representation."""\n        return str(self).encode(\'utf-8\')',
        '        """The ical representation."""\n        return b"%d" % int(self)'))
 M("c19-drop-byweekno-from-order", "C19", "C19/ORDER",
